@@ -2183,7 +2183,7 @@ fn gen_history(rng: &mut Rng, n: &mut usize, len: usize, thorough: bool, ops: &m
 
 /// Class (g): the same event N times in a row, N around the usual thresholds and around the capacity
 /// steps of the hash maps (3, 7, 14, 28, 56, 112, 224, 448, 896).  The N-th must be treated like the first.
-fn gen_runs(rng: &mut Rng, n: &mut usize, thorough: bool, ops: &mut Vec<String>) {
+fn gen_runs(rng: &mut Rng, n: &mut usize, thorough: bool, force: Option<usize>, ops: &mut Vec<String>) {
     let small: [usize; 17] = [1, 2, 7, 8, 9, 16, 17, 28, 29, 56, 57, 64, 65, 112, 113, 256, 257];
     let pick = |rng: &mut Rng| if thorough && rng.chance(1, 3) { *rng.pick(&[448usize, 449, 896, 897, 1000]) } else { *rng.pick(&small) };
     let next = |n: &mut usize| {
@@ -2220,7 +2220,7 @@ fn gen_runs(rng: &mut Rng, n: &mut usize, thorough: bool, ops: &mut Vec<String>)
     }
     ops.push(format!("dump {}", next(n)));
     // (4) N distinct keys on one peer, one from the middle re-pointed, then the peer removed
-    let k = pick(rng);
+    let k = force.unwrap_or_else(|| pick(rng));
     ops.push(format!("reset {} via=1", next(n)));
     ops.push(format!("ins {} 5 1 ok", next(n)));
     ops.push(format!("ins {} 6 2 ok", next(n)));
@@ -2234,7 +2234,7 @@ fn gen_runs(rng: &mut Rng, n: &mut usize, thorough: bool, ops: &mut Vec<String>)
     ops.push(format!("rem {} 5", next(n)));
     ops.push(format!("dump {}", next(n)));
     // (5) N peers, every answer kind, N broadcasts in a row (also N failing sends in a row to the same peers)
-    let k = pick(rng);
+    let k = force.unwrap_or_else(|| pick(rng));
     ops.push(format!("reset {} via=0", next(n)));
     let behs = ["ok", "disc", "full", "other", "okdown", "plain"];
     for i in 0..k {
@@ -2539,8 +2539,11 @@ fn main() {
             ops.push(l.replace("{}", &n.to_string()));
         }
         // (3a) runs of identical events (class g), extreme parameter pairs (class k)
-        for _ in 0..(if thorough { 6 } else if search { 3 } else { 2 }) {
-            gen_runs(&mut rng, &mut n, thorough, &mut ops);
+        // every run has one history with 257 (thorough: also 65 and 1000) keys on one peer / peers in one
+        // broadcast; the other run lengths are drawn from the threshold list
+        let forced: Vec<Option<usize>> = if thorough { vec![Some(257), Some(65), Some(1000), None, None, None] } else if search { vec![Some(257), Some(65), None] } else { vec![Some(257), None] };
+        for f in forced {
+            gen_runs(&mut rng, &mut n, thorough, f, &mut ops);
         }
         gen_pairs(&mut rng, &mut n, &mut ops);
         for _ in 0..hist {
